@@ -423,9 +423,17 @@ def _compress_tiles(
             return (src_data_name, 0, y, x)
         return (src_data_name, s, y, x)
 
+    # image is padded on the right/bottom to ``meta.shape``, when padding
+    # spans whole tiles there are no source blocks for those, use an empty
+    # block instead, tile compressor pads it out with the fill value
+    ny_src, nx_src = data.numblocks[src_ydim : src_ydim + 2]
+    empty_block = np.zeros(
+        (0, 0, meta.nsamples) if meta.axis == "YXS" else (0, 0), dtype=data.dtype
+    )
+
     dsk: Any = {}
     for i, (s, y, x) in enumerate(meta.tidx(sample_idx)):
-        block = block_name(s, y, x)
+        block = block_name(s, y, x) if (y < ny_src and x < nx_src) else empty_block
         dsk[name, i] = (_compress_cog_tile, encoder, block, quote((scale_idx, s, y, x)))
 
     nparts = len(dsk)
